@@ -360,6 +360,40 @@ def c11_6(ck, prog, rid='C11.6'):
                  'the offset counter; found %s' % steps))
 
 
+def c11_7(ck, prog):
+    r = ck.rule('C11.7', 'one read during the handshake cannot overrun the handshake buffer: the transport\'s read '
+                'quantum is smaller than the ceiling _dbus_auth_do_work puts on the unprocessed input (a command line '
+                'left over plus one read must stay under it)', 'TAB',
+                breaks='message bytes that arrive in the same read as BEGIN push the buffer over the ceiling before '
+                'BEGIN is processed: the server disconnects although the stream is valid, depending only on how it '
+                'was chunked', floor=2)
+    tn = prog.fn('_dbus_transport_new_for_socket', TR.replace('dbus-transport.c', 'dbus-transport-socket.c'))
+    qs = [rhs for b, i, ev in tn.events() for lhs, how, rhs in written_lvalues(ev)
+          if is_member(lhs, 'max_bytes_read_per_iteration') and how == '=']
+    aw = prog.fn('_dbus_auth_do_work', 'dbus/dbus-auth.c')
+    ceil = None
+    for blk in aw.blocks.values():
+        t = blk.get('term')
+        if t and t.get('cond') is not None:
+            for x in walk(t['cond']):
+                if x.get('k') == 'bin' and x['op'] in ('>', '>=') and is_int(x['r']) and x['r'].get('name') \
+                        and is_call(x['l'], '_dbus_string_get_length') \
+                        and is_member(strip_addr(x['l']['args'][0]) or {}, 'incoming', 'DBusAuth'):
+                    ceil = x['r']['v']
+    if not qs or ceil is None:
+        raise AnalysisBroken('read quantum / handshake buffer ceiling not found')
+    for q in qs:
+        key = 'read-quantum<ceiling'
+        if is_int(q) and 0 < q['v'] * 2 <= ceil:
+            r.ok(key, {'quantum': q['v'], 'ceiling': ceil})
+        else:
+            r.violation(key, tn.name, tn.file, tn.line,
+                        'the read quantum is %s but _dbus_auth_do_work gives up when more than %d unprocessed bytes '
+                        'are buffered: a single read can exceed the ceiling (a margin of at least one quantum is '
+                        'required)' % (estr(q), ceil))
+    r.ok('ceiling-found', {'ceiling': ceil})
+
+
 def c11_5(ck, prog):
     r = ck.rule('C11.5', 'one notion of "end of message": wherever the loader sizes a read or skips a message from '
                 'the framing lengths reported by _dbus_header_have_message_untrusted, the message length is exactly '
@@ -476,6 +510,7 @@ def run(ck):
         c11_3b(ck, prog)
         c11_5(ck, prog)
         c11_6(ck, prog)
+        c11_7(ck, prog)
         from rules.C05 import QUEUES, c05_4
         r4 = ck.rule('C11.4', 'the loader queue and the connection\'s incoming queue are FIFOs (shared with C05.4)',
                      'TAB', floor=4)
